@@ -188,3 +188,46 @@ Fixpoint junks_ok (prev : option N) (fds : schema) (Js : list (list (N * wf))) :
   | fd :: fds', J :: Js' => junk_ok prev (ftag fd) J /\ junks_ok (Some (ftag fd)) fds' Js'
   | _, _ => False
   end.
+
+(* ---------- a boolean type checker (for concrete examples) ---------- *)
+Definition sc_typed_b (t : ty) (v : val) : bool :=
+  match t, v with
+  | TBool, VBool _ => true
+  | TI8, VInt z => fits 8 z | TI16, VInt z => fits 16 z
+  | TI32, VInt z => fits 32 z | TEnum, VInt z => fits 32 z | TI64, VInt z => fits 64 z
+  | TU8, VInt z => (0 <=? z)%Z && (z <? 256)%Z | TU16, VInt z => (0 <=? z)%Z && (z <? 65536)%Z
+  | TU32, VInt z => (0 <=? z)%Z && (z <? 4294967296)%Z
+  | TF32, VFlt b => b <? 4294967296 | TF64, VFlt b => b <? 18446744073709551616
+  | TStr, VStr s => N.of_nat (length s) <? 4294967296
+  | _, _ => false
+  end.
+Definition is_i8 (t : ty) : bool := match t with TI8 => true | _ => false end.
+Fixpoint has_type_b (fuel : nat) (e : env) (t : ty) (v : val) : bool :=
+  match fuel with O => false | S f =>
+  match v with
+  | VBytes s => (match t with TVec x => is_i8 x | _ => false end) && (N.of_nat (length s) <? 2147483648)
+  | VList xs =>
+      match t with
+      | TVec x => negb (is_i8 x) && (N.of_nat (length xs) <? 2147483648) && forallb (has_type_b f e x) xs
+      | TArr n x => (length xs =? n)%nat && (0 <? n)%nat && (N.of_nat n <? 2147483648) && forallb (has_type_b f e x) xs
+      | _ => false
+      end
+  | VMap kvs =>
+      match t with
+      | TMap kt vt => (N.of_nat (length kvs) <? 2147483648) &&
+                      forallb (fun p => has_type_b f e kt (fst p) && has_type_b f e vt (snd p)) kvs
+      | _ => false
+      end
+  | VStruct vs =>
+      match t with
+      | TStruct sid =>
+          (fix go (fds : schema) (l : list val) : bool :=
+             match fds, l with
+             | [], [] => true
+             | fd :: fds', x :: l' => has_type_b f e (fty fd) x && go fds' l'
+             | _, _ => false
+             end) (fields_of e sid) vs
+      | _ => false
+      end
+  | _ => scalar_ty t && sc_typed_b t v
+  end end.
